@@ -49,6 +49,7 @@ type Op struct {
 	V   float64 `json:"v,omitempty"` // element id; rendered by Kind
 	Sep string  `json:"sep,omitempty"`
 	NA  int     `json:"na,omitempty"` // number of optional arguments passed
+	K   int     `json:"k,omitempty"`  // bulk: number of elements appended (ids V, V+1, ...)
 }
 
 type History struct {
@@ -195,6 +196,15 @@ func runHistory(c *fw.Ctx, h *History, count bool) *divergence {
 			model = append(model[:p-1:p-1], model[p:]...)
 			removed = true
 			got, o = gl.Call(L, e.remove, t, lua.LNumber(p))
+		case "bulk":
+			// a long list: K direct appends t[#t+1] = v
+			for k := 0; k < op.K && o.Err == nil && o.GoPanic == nil; k++ {
+				bv := elem(h.Kind, op.V+float64(k))
+				model = append(model, bv)
+				got, o = gl.Call(L, e.appendd, t, bv)
+			}
+			slack = 0
+			got = nil
 		case "appendd":
 			model = append(model, v)
 			if slack > 0 {
@@ -263,6 +273,10 @@ func runHistory(c *fw.Ctx, h *History, count bool) *divergence {
 				}
 			}
 			got, o = gl.Call(L, e.unpack, args...)
+			if j-i+1 > 2000 && o.Err != nil && strings.Contains(o.Err.Error(), "overflow") {
+				// thousands of results do not fit the value stack: a limit (C12), not a list defect
+				wantErr = true
+			}
 		case "sort":
 			sort.SliceStable(model, func(a, b int) bool { return lessLV(model[a], model[b]) })
 			got, o = gl.Call(L, e.sortf, t)
@@ -340,6 +354,16 @@ func genHistory(r *rand.Rand) *History {
 		return next
 	}
 	seps := []string{"", ",", ", ", "\x00", "ab"}
+	if r.Intn(25) == 0 {
+		// a list longer than half / all of the default value stack (5120 slots)
+		k := []int{2559, 2560, 2561, 3000, 5119, 5120, 5121, 8000}[r.Intn(8)]
+		h.Ops = append(h.Ops, Op{Op: "bulk", K: k, V: next + 1})
+		next += float64(k) + 1
+		n = k
+		if nops > 40 {
+			nops = 40
+		}
+	}
 	for len(h.Ops) < nops {
 		var op Op
 		switch k := r.Intn(20); {
